@@ -10,6 +10,18 @@ CLAIMS = {
   "text": "Partial proof: search completeness (when the search gives up the visited set is exactly the reachable set and excludes the target; search_complete) and termination within the fuel bound; tied to the code by exact-output correspondence and by an oracle comparing the real failure list with the uncertified pairs recomputed from the records, and the conclusion priority with an independent conflict test.",
   "note": SEARCH_NOTE,
  },
+ "C03": {
+  "text": "Proof on the model of DepGraph::new that, for acyclic normal/build edges, the two-pass DFS never runs out of fuel and lists every package of the maximal build graph once, dependencies before dependents, dev-dependencies of members included (C03_depgraph_total, C03_topo_valid), that roots are exactly the workspace members nothing in the normal build graph depends on (C03_root_iff) and that third-party = crates.io source or audit-as-crates-io = true (C03_third_party). The propagation theorems (resolve_requirements solves the documented rule system and is its least solution) are stated in Vet/Spec/Demand.lean and being proved. Tied by exact correspondence of DepGraph::new (all node facts, topo order) and resolve_requirements, and by an oracle that recomputes the demand as an independent least fixpoint of the rules from the raw metadata and compares it with the real requirement vector.",
+  "note": SEARCH_NOTE,
+ },
+ "C04": {
+  "text": "Partial proof (the property is false on the current tree for three edge kinds, see known_findings.json). Proved on the model of AuditGraph::build: any exemption or full/delta audit (own or imported) touching a version matched by a violation while claiming the closure of a listed violation criterion yields a violation conflict, used or not (C04_exemption_conflict, C04_audit_conflict); in a conflict-free graph no audit/exemption edge touching a violating version carries a violated criterion (C04_no_claiming_edge_partial). Kernel-evaluated counterexamples for wildcard-audit, trusted-publisher and unpublished-link edges (C04_counterexample_*), each replayed on the real code by the corpus. Oracle on the real resolver: a violation covering an in-graph version for a required-or-implied criterion must not end in success; an independent conflict test must agree with the conclusion.",
+  "note": SEARCH_NOTE + " Known findings C04/edge=WildcardAudit, C04/edge=Trusted, C04/edge=Unpublished are genuine defects recorded rather than repaired (a repair needs a new conflict kind in the report format or a design decision).",
+ },
+ "C06": {
+  "text": "Proof on the model of AuditGraph::build: a wildcard-audit edge exists exactly when that crate's publisher record matches the entry's user id with start <= when < end, leads from nothing to exactly the published version and carries exactly the entry's criteria (C06_wildcard_edge_iff); trusted edges likewise and only from the local trusted table (C06_trusted_edge_iff; imported files have no trusted table in the resolver's view); records of other crates are never consulted (C06_other_crates_irrelevant). The end-date cap at load is covered with C15's validate model (pending). Tied by edge-dump correspondence with boundary dates and an oracle re-checking every publisher-based origin on an accepted chain against the records.",
+  "note": SEARCH_NOTE + " The code's window is start <= when < end; the property's 'not after its end' is implied.",
+ },
  "C12": {
   "text": "Partial proof: minimax optimality of the path search over the nine caveat levels (search_minimax: the chosen path minimises the greatest caveat level over all walks), which is what makes exemptions used only when audits do not suffice; tied by exact-path correspondence in all three search modes and by an oracle on the real success classes (fully-audited iff an exemption-free chain exists per the records; always when stale audits/grants suffice).",
   "note": SEARCH_NOTE,
